@@ -1,9 +1,25 @@
 (* C13 — property theorems only.  Each is closed by [exact] of a lemma from
    Proofs*.v and followed by Print Assumptions. *)
 From Coq Require Import List ZArith NArith Bool.
-From Verif Require Import lib.Wire c09.Abs c08.SymCrypto gen.Consts_c13 c13.Model c13.Spec c13.Proofs.
+From Verif Require gen.Consts_c09.
+From Verif Require Import lib.Wire c09.Abs c08.SymCrypto gen.Consts_c13 c13.Model c13.Spec
+  c13.Proofs c13.Proofs_Book c13.Proofs_Store c13.Proofs_Consume c13.Proofs_Msg c13.Proofs_Sys
+  c13.Proofs_Inv c13.Proofs_Mon.
 Import ListNotations.
 Local Open Scope Z_scope.
+
+(* THE property on traces.  For every configuration (peers, key kinds,
+   connections, seeded addresses without the connected lifetime) and every
+   finite history of swarm events, notifications in any order, identify
+   answers / failures / pushes with arbitrary (malformed, chunked, forged)
+   messages and timeouts, the observable trace of the model — the peerstore
+   calls, the events, the wait channels and the peerstore contents of ALL
+   peers after every step — is accepted by the monitor of Spec.v, the very
+   function that judges the implementation's traces. *)
+Theorem c13_monitor_accepts_model : forall g ops, init_wf g = true ->
+  mon_run g (mon_init g) 0 (model_trace g (init_sys g) ops) = [].
+Proof. exact monitor_accepts_model_l. Qed.
+Print Assumptions c13_monitor_accepts_model.
 
 (* every peerstore call consumeMessage produces is keyed by the remote peer of
    the connection the message arrived on — whatever the message holds, whatever
@@ -18,3 +34,201 @@ Theorem c13_disconnect_writes_keyed_by_remote :
   forall c connected order, Forall (fun o => op_peer o = c_peer c) (disconnected_ops c connected order).
 Proof. exact disconnected_keyed. Qed.
 Print Assumptions c13_disconnect_writes_keyed_by_remote.
+
+(* and calls keyed by p change nothing of what is stored under any other peer:
+   addresses with their TTLs, protocols, key, versions, record *)
+Theorem c13_other_peers_untouched :
+  forall id_of inline_key l s p q, Forall (fun o => op_peer o = p) l -> q <> p -> book_ok (ps_book s) ->
+    dump_peer (apply_ops id_of inline_key s l) q = dump_peer s q.
+Proof. exact apply_ops_frame. Qed.
+Print Assumptions c13_other_peers_untouched.
+
+(* an address enters the book under p only if it was written without a /p2p
+   suffix or with p's own: a foreign suffix is dropped (the book's rule) *)
+Theorem c13_foreign_p2p_suffix_dropped : forall p l a,
+  In a (clean_addrs (map (to_raw p) (filter has_transport l))) ->
+  exists w, In w l /\ w_id w = a /\ (w_sfx w = 0 \/ w_sfx w = p).
+Proof. exact clean_in. Qed.
+Print Assumptions c13_foreign_p2p_suffix_dropped.
+
+(* the key stored under p after any calls keyed by p is the one stored before
+   or one that hashes to p *)
+Theorem c13_pubkey_only_if_hashes_to_peer :
+  forall (id_of : N -> Z) (inline_key : Z -> option N),
+    (forall p k, inline_key p = Some k -> id_of k = p) ->
+    forall l s p, Forall (fun o => op_peer o = p) l ->
+      let k1 := alist_get p (ps_keys (apply_ops id_of inline_key s l)) in
+      k1 = alist_get p (ps_keys s) \/ exists k, k1 = Some k /\ id_of k = p.
+Proof. exact apply_ops_key. Qed.
+Print Assumptions c13_pubkey_only_if_hashes_to_peer.
+
+(* for every ideal signature scheme: an address consumeMessage passes to the
+   book is a listen address of the merged message — and then no record
+   verified — or an address of a record whose signature was issued by the key
+   in the envelope for exactly (peer-record domain, peer-record type, this
+   payload), that key hashing to the remote peer and the record naming it *)
+Theorem c13_record_only_if_valid_and_own :
+  forall (verify : N -> term -> term -> bool) (origin : term -> option (N * term)),
+    (forall k m s, verify k m s = true <-> origin s = Some (k, m)) ->
+    forall (id_of : N -> Z) c m w, In w (consume_addrs verify id_of c m) ->
+      (rec_of_msg verify m = None /\ In w (m_listen m)) \/
+      (exists e, m_rec m = REnv e /\ sealed_own origin id_of (c_peer c) e /\ In w (pr_addrs (e_rec e))).
+Proof. exact consume_addrs_origin. Qed.
+Print Assumptions c13_record_only_if_valid_and_own.
+
+(* the symbolic scheme the correspondence runs with is ideal (c08.SymCrypto) *)
+Theorem c13_symbolic_scheme_is_ideal : forall k m s, sym_v k m s = true <-> sym_o s = Some (k, m).
+Proof. exact sym_v_ideal. Qed.
+Print Assumptions c13_symbolic_scheme_is_ideal.
+
+(* caps: at most connectedPeerMaxAddrs addresses are handed to the book and at
+   most that many entries of the peer are in the connected / recently-connected
+   classes afterwards; the last disconnect adds at most
+   recentlyConnectedPeerMaxAddrs to the recently-connected class *)
+Theorem c13_caps_addresses :
+  forall verify id_of c m b ttl,
+    Z.of_nat (length (consume_addrs verify id_of c m)) <= connectedPeerMaxAddrs /\
+    Z.of_nat (length (filter (Qp (c_peer c) is_hi)
+                             (a_ents (book_consumed b (c_peer c) (consume_addrs verify id_of c m) ttl))))
+      <= connectedPeerMaxAddrs.
+Proof.
+  intros. split; [apply consume_addrs_length|apply consumed_cap, consume_addrs_length].
+Qed.
+Print Assumptions c13_caps_addresses.
+
+Theorem c13_caps_after_last_disconnect : forall b p order,
+  Z.of_nat (length (filter (Qp p is_rc) (a_ents (book_disconnected b p order)))) <=
+  Z.of_nat (length (filter (Qp p is_rc) (a_ents b))) + recentlyConnectedPeerMaxAddrs.
+Proof. exact disconnected_recent. Qed.
+Print Assumptions c13_caps_after_last_disconnect.
+
+(* protocols: whatever calls keyed by p do, p's protocol list is the old one or
+   has at most maxPeerProtocols entries, provided every SetProtocols among them
+   is bounded — as consumeMessage's is *)
+Theorem c13_caps_protocols :
+  forall id_of inline_key l s p, Forall protos_bounded l ->
+    protos_rel (alist_get p (ps_protos s)) (alist_get p (ps_protos (apply_ops id_of inline_key s l))).
+Proof. exact apply_ops_protos. Qed.
+Print Assumptions c13_caps_protocols.
+
+(* the connected lifetime only while a connection exists: in every reachable
+   state, a peer that the swarm lists no connection to and for which no
+   Disconnected notification is outstanding has no address with the connected
+   TTL *)
+Theorem c13_connected_ttl_only_while_connected : forall g ops q, init_wf g = true -> q <> 0 ->
+  let s := run g (init_sys g) ops in
+  connected (g_conns g) (s_net s) q = false -> pending g (s_pend s) q = false ->
+  forall e, In e (a_ents (ps_book (s_ps s))) -> ep e = q -> ettl e <> ConnectedAddrTTL.
+Proof.
+  intros g ops q Hw Hq s Hc Hp. destruct (run_inv g ops (init_sys g) (init_inv g Hw)) as [_ _ H].
+  destruct (H q Hq) as [H1|[H1|H1]]; [fold s in H1; congruence|fold s in H1; congruence|exact H1].
+Qed.
+Print Assumptions c13_connected_ttl_only_while_connected.
+
+(* ... and fall back to a finite lifetime: right after the last Disconnected no
+   entry of the peer has the connected TTL, and only entries that were above it
+   (permanent) stay at or above it *)
+Theorem c13_fallback_to_finite_lifetime : forall b p order,
+  pall p (fun t => t <> ConnectedAddrTTL) (book_disconnected b p order) /\
+  (length (filter (Qp p (fun t => (ConnectedAddrTTL <=? t)%Z)) (a_ents (book_disconnected b p order))) <=
+   length (filter (Qp p (fun t => (ConnectedAddrTTL <? t)%Z)) (a_ents b)))%nat.
+Proof. intros. split; [apply disconnected_noconn|apply disconnected_fallback]. Qed.
+Print Assumptions c13_fallback_to_finite_lifetime.
+
+(* every connection's identify-wait is eventually released (state predicates
+   over the wait bookkeeping): in every reachable state an open wait channel
+   has a running identify task; a task's answer — any answer — closes its
+   channel; the identify timeout closes them all *)
+Theorem c13_wait_eventually_released : forall g ops, init_wf g = true ->
+  let s := run g (init_sys g) ops in
+  (forall ch, In (ch, false) (s_chans s) -> In ch (map fst (s_tasks s))) /\
+  (forall ch c out, alist_get ch (s_tasks s) = Some c ->
+     ~ In (ch, false) (s_chans (fst (gstep g s (OFinish ch c out))))) /\
+  (forall d ch, ~ In (ch, false) (s_chans (fst (gstep g s (OTimeout d))))).
+Proof.
+  intros g ops Hw s. destruct (run_inv g ops (init_sys g) (init_inv g Hw)) as [_ Hwt _]. fold s in Hwt.
+  split; [exact Hwt|]. split.
+  - intros ch c out. apply finish_closes.
+  - intros d ch. destruct (gstep g s (OTimeout d)) as [s' mo] eqn:E. cbn [fst].
+    exact (timeout_all_closed g s d s' mo E Hwt ch).
+Qed.
+Print Assumptions c13_wait_eventually_released.
+
+(* the constants re-read from /repo on every run: the TTL classes are ordered
+   as the reasoning needs, the caps are positive and nested, and the TTL values
+   are the ones C09's book was verified with *)
+Theorem c13_constants_sane :
+  (0 < TempAddrTTL /\ TempAddrTTL < RecentlyConnectedAddrTTL /\
+   RecentlyConnectedAddrTTL < ConnectedAddrTTL /\ ConnectedAddrTTL < PermanentAddrTTL) /\
+  (0 < recentlyConnectedPeerMaxAddrs <= connectedPeerMaxAddrs /\ 0 < maxPeerProtocols /\ 1 <= maxMessages) /\
+  Consts_c13.ConnectedAddrTTL = Consts_c09.ConnectedAddrTTL /\
+  Consts_c13.RecentlyConnectedAddrTTL = Consts_c09.RecentlyConnectedAddrTTL /\
+  Consts_c13.TempAddrTTL = Consts_c09.TempAddrTTL.
+Proof. split; [exact ttl_order|]. split; [exact caps_sane|]. repeat split. Qed.
+Print Assumptions c13_constants_sane.
+
+(* ---- non-vacuity ---------------------------------------------------------------------------------- *)
+(* two peers, one public connection to peer 1 (whose ID embeds its key).  A push
+   carries a listen address (9), and a record sealed by peer 1 listing address 6
+   and address 7 with the suffix /p2p/2. *)
+Definition ex_g : cfg := mkCfg 2 [1] 128 64 5000000000 [(1, mkConn 1 2 2 false)] [].
+Definition ex_rec : prec := mkPR 1 1 [mkW 6 2 0; mkW 7 2 2].
+Definition ex_env (signer : N) : envelope := mkEnv 1 1 ex_rec (TSig signer (signed_msg 1 1 ex_rec) 0).
+Definition ex_chunk (signer : N) : chunk :=
+  mkChunk false (mkMsg [1; 2] [mkW 9 2 0] 1 1 (KKey 1) (REnv (ex_env signer))).
+
+(* while connected the record's own address gets the connected TTL; the
+   foreign-suffixed one is dropped, the listen address is not used; after the
+   swarm dropped the connection and Disconnected was delivered, the address has
+   the recently-connected TTL; peer 2 has nothing at any time *)
+Example ex_connected_then_recent :
+  let s1 := run ex_g (init_sys ex_g) [ONetAdd 1; OPush 1 [ex_chunk 1]] in
+  let s2 := run ex_g s1 [ONetRemove 1; ODisconnected 1 [mkW 6 3 0]] in
+  d_addrs (dump_peer (s_ps s1) 1) = [(6, ConnectedAddrTTL)] /\ d_key (dump_peer (s_ps s1) 1) = 1 /\
+  d_addrs (dump_peer (s_ps s2) 1) = [(6, RecentlyConnectedAddrTTL)] /\
+  d_addrs (dump_peer (s_ps s1) 2) = [] /\ d_addrs (dump_peer (s_ps s2) 2) = [].
+Proof. vm_compute. repeat split. Qed.
+
+(* the same record signed by peer 2's key does not verify: the listen address is used instead *)
+Example ex_forged_record_not_used :
+  let s1 := run ex_g (init_sys ex_g) [ONetAdd 1; OPush 1 [ex_chunk 2]] in
+  d_addrs (dump_peer (s_ps s1) 1) = [(9, ConnectedAddrTTL)].
+Proof. vm_compute. reflexivity. Qed.
+
+(* a wait channel opened by Connected is released by the timeout *)
+Example ex_wait_released :
+  let s1 := run ex_g (init_sys ex_g) [ONetAdd 1; OConnected 1] in
+  let s2 := run ex_g s1 [OTimeout 6000000000] in
+  s_chans s1 = [(1, false)] /\ s_chans s2 = [(1, true)].
+Proof. vm_compute. split; reflexivity. Qed.
+
+(* the monitor rejects bad observations of the push step: *)
+Definition ex_before : mon := mkMon [1] [] [no_dump; no_dump].
+Definition ex_d (addrs : list (Z * Z)) : pdump := mkPD addrs [] 0 0 0 0.
+Definition ex_obs calls d1 d2 : wobs := mkWO 0 calls [(1, 1)] [] [d1; d2].
+(* ... a call keyed by peer 2, and peer 2's data changed *)
+Example monitor_rejects_other_peer :
+  mon_step ex_g ex_before (OPush 1 [ex_chunk 1])
+           (ex_obs [PAddAddrs 2 [mkW 6 2 0] ConnectedAddrTTL] (ex_d []) (ex_d [(6, ConnectedAddrTTL)])) = [1; 3; 10].
+Proof. vm_compute. reflexivity. Qed.
+(* ... the address with the foreign /p2p suffix recorded under the remote peer *)
+Example monitor_rejects_foreign_suffix :
+  mon_step ex_g ex_before (OPush 1 [ex_chunk 1]) (ex_obs [] (ex_d [(7, ConnectedAddrTTL)]) (ex_d [])) = [7].
+Proof. vm_compute. reflexivity. Qed.
+(* ... an address of a record that peer 1 did not sign *)
+Example monitor_rejects_foreign_record :
+  mon_step ex_g ex_before (OPush 1 [ex_chunk 2]) (ex_obs [] (ex_d [(6, ConnectedAddrTTL)]) (ex_d [])) = [7].
+Proof. vm_compute. reflexivity. Qed.
+(* ... a key that does not hash to the peer *)
+Example monitor_rejects_foreign_key :
+  mon_step ex_g ex_before (OPush 1 [ex_chunk 1]) (ex_obs [] (mkPD [] [] 2 0 0 0) (ex_d [])) = [4].
+Proof. vm_compute. reflexivity. Qed.
+(* ... the connected TTL surviving the last disconnect, and an open channel after the timeout *)
+Example monitor_rejects_stale_connected_ttl :
+  mon_step ex_g (mkMon [] [1] [ex_d [(6, ConnectedAddrTTL)]; no_dump]) (ODisconnected 1 [])
+           (mkWO 0 [] [] [] [ex_d [(6, ConnectedAddrTTL)]; no_dump]) = [9; 10].
+Proof. vm_compute. reflexivity. Qed.
+Example monitor_rejects_open_wait :
+  mon_step ex_g (mkMon [] [] [no_dump; no_dump]) (OTimeout 6000000000)
+           (mkWO 0 [] [] [true; false] [no_dump; no_dump]) = [11].
+Proof. vm_compute. reflexivity. Qed.
